@@ -3,6 +3,9 @@
 package receiver
 
 import (
+	"bytes"
+	"math"
+
 	"github.com/VKCOM/statshouse/internal/data_model/gen2/tlstatshouse"
 	v "github.com/VKCOM/statshouse/internal/zzverif"
 )
@@ -80,4 +83,74 @@ func Harness_C13_msgpack_tags_huge_count() {
 	_, err := msgpackUnmarshalStatshouseMetric(&m, buf)
 	v.Assert("C13.msgpack.tags.huge_count_is_error", err != nil)
 	v.Reach("C13.msgpack.tags_huge.end")
+}
+
+func c13SameMetric(a, b *tlstatshouse.MetricBytes) bool {
+	same := a.FieldsMask == b.FieldsMask && bytes.Equal(a.Name, b.Name) && len(a.Tags) == len(b.Tags) &&
+		len(a.Value) == len(b.Value) && len(a.Unique) == len(b.Unique) && len(a.Histogram) == len(b.Histogram)
+	if !same {
+		return false
+	}
+	ok := true
+	for i := range a.Tags {
+		ok = v.And(ok, v.And(bytes.Equal(a.Tags[i].Key, b.Tags[i].Key), bytes.Equal(a.Tags[i].Value, b.Tags[i].Value)))
+	}
+	if a.IsSetCounter() {
+		ok = v.And(ok, math.Float64bits(a.Counter) == math.Float64bits(b.Counter))
+	}
+	if a.IsSetTs() {
+		ok = v.And(ok, a.Ts == b.Ts)
+	}
+	for i := range a.Value {
+		ok = v.And(ok, math.Float64bits(a.Value[i]) == math.Float64bits(b.Value[i]))
+	}
+	for i := range a.Unique {
+		ok = v.And(ok, a.Unique[i] == b.Unique[i])
+	}
+	for i := range a.Histogram {
+		ok = v.And(ok, v.And(math.Float64bits(a.Histogram[i][0]) == math.Float64bits(b.Histogram[i][0]), math.Float64bits(a.Histogram[i][1]) == math.Float64bits(b.Histogram[i][1])))
+	}
+	return ok
+}
+
+// A protobuf metric message of 0..5 arbitrary bytes, and one whose single tag map entry is 0..4
+// arbitrary bytes, decoded into a fresh metric object and into one that already decoded another
+// metric (name, two tags, counter, timestamp, a value - the receivers reuse one batch object for every
+// packet): same verdict (error or not) and, when accepted, the same metric field by field. What the
+// decoder returns depends on the packet only, never on what the reused object held before.
+func c13ProtoReuse(msg []byte) {
+	old := []byte{
+		0x0a, 3, 'o', 'l', 'd', // name
+		0x12, 6, 0x0a, 1, 'k', 0x12, 1, 'v', // tag k=v
+		0x12, 8, 0x0a, 2, 'e', 'n', 0x12, 2, 'p', 'r', // tag en=pr
+		0x19, 0, 0, 0, 0, 0, 0, 0x14, 0x40, // counter 5
+		0x20, 7, // ts
+		0x29, 0, 0, 0, 0, 0, 0, 0xf0, 0x3f, // value 1
+	}
+	var dirty, fresh tlstatshouse.MetricBytes
+	_, err0 := protobufUnmarshalStatshouseMetric(old, &dirty)
+	v.Assert("C13.proto.reuse.prior_packet_decodes", err0 == nil && len(dirty.Tags) == 2)
+	_, errF := protobufUnmarshalStatshouseMetric(append([]byte(nil), msg...), &fresh)
+	_, errD := protobufUnmarshalStatshouseMetric(append([]byte(nil), msg...), &dirty)
+	v.Assert("C13.proto.reuse.same_verdict", (errF == nil) == (errD == nil))
+	if errF == nil && errD == nil {
+		v.Assert("C13.proto.reuse.same_metric", c13SameMetric(&fresh, &dirty))
+		v.Reach("C13.proto.reuse.accepted")
+	}
+}
+
+func Harness_C13_protobuf_reuse_metric() {
+	n := v.Choice(5)
+	c13ProtoReuse(v.NondetBytes(n))
+}
+
+func Harness_C13_protobuf_reuse_metric_5bytes() {
+	c13ProtoReuse(v.NondetBytes(5))
+}
+
+func Harness_C13_protobuf_reuse_tag_entry() {
+	n := v.Choice(5)
+	entry := v.NondetBytes(n)
+	msg := append([]byte{0x12, byte(n)}, entry...)
+	c13ProtoReuse(msg)
 }
